@@ -130,13 +130,10 @@ pub fn update_position_reply(
         latest_premium_fraction,
     } = calc_remain_margin_with_funding_payment(deps.as_ref(), position.clone(), margin_delta)?;
 
-    // a reducing order that trades the whole position away is a close: like a close it must not
-    // leave bad debt behind (no position remains for the margin check below to judge)
-    if reply_id != INCREASE_POSITION_REPLY_ID
-        && (position.size + signed_output).is_zero()
-        && !bad_debt.is_zero()
-    {
-        return Err(StdError::generic_err("Cannot close position - bad debt"));
+    // funding owed beyond what the margin (plus this order's own margin or realised PnL) can pay
+    // must not be written off by storing a zero margin: like a close, the order is refused
+    if !bad_debt.is_zero() {
+        return Err(StdError::generic_err("Cannot modify position - bad debt"));
     }
 
     // set the new position
